@@ -30,5 +30,9 @@
 (declare-fun witness (Int) Bool)
 (assert (forall ((i Int)) (! (witness i) :pattern ((witness i)))))
 
+; error values that are package-level variables (ErrNotMatched, ErrEngineClosed, ...):
+; an error made by fmt.Errorf / errors.New at run time is never one of them
+(declare-fun staticErr (Int) Bool)
+
 ; the BSON order (defined in cmp.smt2)
 (declare-fun cmp (Val Val) Int)
